@@ -37,7 +37,7 @@ var checks = map[string]checkSpec{
 	"C11": {
 		Scenarios: []scnSpec{{Name: "connerr", Share: 0.6, CountKey: "connerr"}, {Name: "stallclose", Share: 0.4, CountKey: "stallclose"}},
 		Quick:     30 * time.Second, Thorough: 10 * time.Minute, Level: "fault_enumeration",
-		Rule: "Exhaustive enumeration (thorough tier; the quick tier walks a seed-dependent subset of the same bijection) of 12 Conn operations (incl. Batch.Read into a too-short buffer, the documented non-fatal local error) x 3 negotiated-version configurations (produce v2/v3/v7, fetch v2/v5/v10, metadata v1/v6) x 11 faults (8 Kafka error codes placed in the operation's error field, response cut mid-way, garbage size prefix, wrong correlation id) x 2 error-field positions x 12 follow-up operations = 9504 cases (cases whose fault does not apply to the api/version run fault-free and the follow-up must still find the connection aligned); after a broker error code the follow-up must behave as on a fresh connection, after a framing/transport error it must fail, and no operation may return a value other than the model's.",
+		Rule: "Exhaustive enumeration (thorough tier; the quick tier walks a seed-dependent subset of the same bijection) of 13 Conn operations (incl. Batch.Read into a too-short buffer, the documented non-fatal local error, and a slowly acknowledged WriteMessages during which another goroutine sets a short read deadline) x 3 negotiated-version configurations (produce v2/v3/v7, fetch v2/v5/v10, metadata v1/v6) x 11 faults (8 Kafka error codes placed in the operation's error field, response cut mid-way, garbage size prefix, wrong correlation id) x 2 error-field positions x 13 follow-up operations = 11154 cases (cases whose fault does not apply to the api/version run fault-free and the follow-up must still find the connection aligned); after a broker error code the follow-up must behave as on a fresh connection, after a framing/transport error it must fail, and no operation may return a value other than the model's.",
 	},
 	"C17": {
 		Scenarios: []scnSpec{{Name: "cutresp", Share: 1, CountKey: "cutresp"}},
@@ -56,9 +56,9 @@ var checks = map[string]checkSpec{
 		Rule: "2-5 brokers with heterogeneous advertised version tables ([min,max] per api and broker), topics, partitions and groups spread over them; 1-4 goroutines issue every routed kind of Client call (produce, fetch, multi-leader list-offsets, group requests, create-topics, transactional InitProducerID, filtered metadata) while leaders, coordinators and the controller move; every request in the brokers' journal must have gone to the broker designated by a metadata snapshot (or FindCoordinator answer) delivered within MetadataTTL + RTT before its arrival, at the highest version common to the library's declared range and the range that broker advertised.",
 	},
 	"C19": {
-		Scenarios: []scnSpec{{Name: "queries", Share: 1}},
+		Scenarios: []scnSpec{{Name: "queries", Share: 0.75}, {Name: "routing", Share: 0.25}},
 		Quick:     35 * time.Second, Thorough: 10 * time.Minute, Level: "exploration",
-		Rule: "Random static cluster states (1-4 brokers, topics/partitions spread over leaders, log start offsets from 0 to beyond 2^33, record timestamps, committed offsets per group) queried through Conn (ReadOffsets, ReadOffset(time), Seek in every whence mode with and without SeekDontCheck, ReadPartitions) and Client (ListOffsets spanning many topics/partitions/leaders with mixed first/last/time requests, OffsetFetch, ConsumerOffsets, OffsetCommit, Metadata) by 1-3 goroutines, with per-partition error codes and an unreachable leader for a subset; every returned value is compared with the model and an injected failure must appear on its partition only. ListOffsets asks 1-3 look-ups of distinct kinds per partition; failures can be confined to one kind of look-up, and the partition's entry must then carry the error.",
+		Rule: "Random static cluster states (1-4 brokers, topics/partitions spread over leaders, log start offsets from 0 to beyond 2^33, record timestamps, committed offsets per group) queried through Conn (ReadOffsets, ReadOffset(time), Seek in every whence mode with and without SeekDontCheck, ReadPartitions) and Client (ListOffsets spanning many topics/partitions/leaders with mixed first/last/time requests, OffsetFetch, ConsumerOffsets, OffsetCommit, Metadata) by 1-3 goroutines, with per-partition error codes and an unreachable leader for a subset; every returned value is compared with the model and an injected failure must appear on its partition only. ListOffsets asks 1-3 look-ups of distinct kinds per partition; failures can be confined to one kind of look-up, and the partition's entry must then carry the error. A quarter of the budget goes to the routing scenario (a cluster that changes: leader moves and elections, broker restarts, metadata requests that are never answered): once the cluster has been left alone for three MetadataTTLs plus two seconds, Client.Metadata reports its current leaders (R4-metadata-stale).",
 	},
 	"C18": {
 		Scenarios: []scnSpec{{Name: "sasl", Share: 0.9}, {Name: "saslraw", Share: 0.1, CountKey: "saslraw"}},
